@@ -27,7 +27,12 @@ MutSlot(m)   == {[m EXCEPT !.h = x] : x \in {1, -34, -35, ZERO, ONE, H31M, H31, 
 MutSigners(m) == {[m EXCEPT !.sg = x] : x \in {<<>>, <<0>>, <<9>>, <<3>>, <<1, 2>>, <<2, 1>>, <<1, 1>>}}
 MutBody(m)   == {[m EXCEPT !.mt = 9], [m EXCEPT !.sf = "zero"], [m EXCEPT !.body = "empty"], [m EXCEPT !.body = "garbage"],
                  [m EXCEPT !.raw = "empty"], [m EXCEPT !.raw = "junk"],
-                 [m EXCEPT !.st = "dkg"], [m EXCEPT !.st = "event"], [m EXCEPT !.st = "unk"]}
+                 [m EXCEPT !.st = "dkg"], [m EXCEPT !.st = "event"], [m EXCEPT !.st = "unk"],
+                 \* an event-type message (type 200, body decodes as EventMsg) on a message id that nothing else uses in the
+                 \* alphabets built with MutBody (roles 6 and 4 of the active validator): whenever it is validated on a validator
+                 \* object it is the FIRST message of its id there (no per-id lock yet), and the sweep always validates
+                 \* something on the same object next (the same bytes again, then the rest of the alphabet)
+                 [m EXCEPT !.st = "event", !.role = 6], [m EXCEPT !.st = "event", !.role = 4]}
 MutData(m)   == {[m EXCEPT !.fd = 1, !.root = 2], [m EXCEPT !.fd = 2, !.root = 1], [m EXCEPT !.fd = 1, !.root = 1], [m EXCEPT !.fd = 0]}
 MutJust(m)   == {[m EXCEPT !.js = x] : x \in {"none", "rcq", "rcprep", "pj", "pjbad", "rcbad"}}
 MutReg(m)    == {[m EXCEPT !.val = x] : x \in {"unknown", "liquidated", "nometa", "exited", "pending", "badpk"}}
